@@ -53,7 +53,7 @@ SAFE = {
     'hkdf::Hkdf::expand_multi_info': 'returns Err(InvalidLength) when too long', 'hkdf::Hkdf::from_prk': 'returns Err when the PRK is too short',
     'hkdf::HkdfExtract::finalize': 'hash finalisation', 'hkdf::HkdfExtract::input_ikm': 'hash update (any length)', 'hkdf::HkdfExtract::new': 'HMAC keyed with a salt of any length',
     'rand_core::RngCore::fill_bytes': 'the caller\'s RNG (assumed not to panic)', 'subtle::ConstantTimeEq::ct_eq': 'constant-time comparison (length mismatch gives false)',
-    'subtle::Choice::unwrap_u8': 'field read', 'subtle::ConstantTimeEq::ct_ne': 'negated ct_eq',
+    'subtle::Choice::unwrap_u8': 'field read', 'zeroize::Zeroizing::new': 'by-value wrapper', 'subtle::ConstantTimeEq::ct_ne': 'negated ct_eq',
     'generic_array::typenum::Unsigned::to_usize': 'constant', 'zeroize::Zeroize::zeroize': 'memory wipe',
     'x25519_dalek::PublicKey::as_bytes': 'view', 'x25519_dalek::SharedSecret::as_bytes': 'view', 'x25519_dalek::StaticSecret::as_bytes': 'view',
     'x25519_dalek::StaticSecret::diffie_hellman': 'total function on 32-byte inputs', 'x25519_dalek::StaticSecret::to_bytes': 'copy',
